@@ -1638,6 +1638,10 @@ class FnTranslator:
                     return T("slice", T("char"))
                 if (is_str(rt) or rt[1] == "char") and m in ("to_string", "to_owned") and not e[3]:
                     return T("String")
+                if is_z(rt) and m == "to_string" and not e[3]:
+                    return T("String")
+                if is_str(rt) and m == "as_str" and not e[3]:
+                    return T("str")
                 if is_deque(rt):
                     if m == "pop_front":
                         return T("Option", rt[2][0])
@@ -2023,8 +2027,11 @@ class FnTranslator:
                 return None if r0 is None else "(list_%s_opt %s)" % (m, r0)
             if m == "chars" and is_str(rt):
                 return self.pure(e[1], env)
-            if m in ("to_string", "to_owned") and not e[3] and is_str(rt):
+            if m in ("to_string", "to_owned", "as_str") and not e[3] and is_str(rt):
                 return self.pure(e[1], env)
+            if m == "to_string" and not e[3] and is_z(rt):
+                r0 = self.pure(e[1], env)
+                return None if r0 is None else "(i32_to_string %s)" % r0
             if m == "to_string" and not e[3] and rt is not None and rt[0] == "ty" and rt[1] == "char":
                 r0 = self.pure(e[1], env)
                 return None if r0 is None else "[%s]" % r0
@@ -3351,7 +3358,8 @@ MODULES = {
                       (None, None, "good_char"), (None, None, "good_string"), ("SmtString", None, "is_good"),
                       ("SmtString", None, "char"),
                       (None, None, "all_unicode"), (None, None, "map_to_unicode"),
-                      ("SmtString", None, "is_unicode"), ("SmtString", None, "to_unicode_string")],
+                      ("SmtString", None, "is_unicode"), ("SmtString", None, "to_unicode_string"),
+                      ("SmtString", "From<String>", "from"), (None, None, "str_from_int")],
     },
     "StrSearchGen": {
         "files": ["smt_strings.rs", "matcher.rs"],
